@@ -21,8 +21,10 @@ type RMCPClass uint8
 
 // LayerType returns the payload layer type corresponding to a RMCP class.
 func (c RMCPClass) LayerType() gopacket.LayerType {
-	if lt := rmcpClassLayerTypes[uint8(c)]; lt != 0 {
-		return lt
+	if int(c) < len(rmcpClassLayerTypes) {
+		if lt := rmcpClassLayerTypes[uint8(c)]; lt != 0 {
+			return lt
+		}
 	}
 	return gopacket.LayerTypePayload
 }
